@@ -526,7 +526,26 @@ impl<K: Kind> Scenario for Bf<K> {
                 };
                 let a = usize::from_str_radix(w[2], 2).unwrap();
                 let n = self.n;
-                let r = f.eval((0..n).map(|v| (v, (a >> v) & 1 != 0)));
+                // the documented contract: "if a variable is given multiple times, the last value
+                // counts" - some variables are listed first with the opposite (or a random) value,
+                // in a shuffled order, and then all variables in descending or ascending order
+                let mut rng = crate::Rng::new(ctx.line_no.wrapping_mul(0x9e3779b97f4a7c15) ^ a as u64);
+                let mut args: Vec<(u32, bool)> = Vec::new();
+                for v in 0..n {
+                    if rng.chance(1, 3) {
+                        args.push((v, if rng.chance(2, 3) { (a >> v) & 1 == 0 } else { rng.chance(1, 2) }));
+                    }
+                }
+                rng.shuffle(&mut args);
+                if rng.chance(1, 2) {
+                    args.extend((0..n).map(|v| (v, (a >> v) & 1 != 0)));
+                } else {
+                    args.extend((0..n).rev().map(|v| (v, (a >> v) & 1 != 0)));
+                }
+                if !args.is_empty() && args.len() > n as usize {
+                    ctx.count("eval_with_repeated_variables");
+                }
+                let r = f.eval(args.iter().copied());
                 if r != t.get(a) {
                     ctx.fail("wrong-eval", &format!("eval {} under {:#b} = {} expected {}", w[1], a, r, t.get(a)));
                 }
